@@ -124,6 +124,7 @@ pub fn main(args: &[String]) -> i32 {
         Some("worker") => worker(args),
         Some("replay") => replay(args),
         Some("run") => run_one(args),
+        Some("triage") => triage(args),
         Some("determinism") => determinism(args),
         _ => {
             eprintln!("usage: ysim batch|worker|replay|run|determinism ...");
@@ -222,7 +223,7 @@ pub struct BatchSpec {
 fn default_cells(profile: &str, thorough: bool) -> u64 {
     let base = match profile {
         "corrupt" => 60_000,
-        _ => 60_000,
+        _ => 120_000,
     };
     if thorough {
         base * 20
@@ -590,5 +591,47 @@ fn determinism(args: &[String]) -> i32 {
         EXIT_HARNESS
     } else {
         EXIT_OK
+    }
+}
+
+/// ysim triage <profile> <tier> <cell_seed> <outfile>: minimise one failing cell and write its replay file
+fn triage(args: &[String]) -> i32 {
+    let profile = &args[2];
+    let thorough = args[3] == "thorough";
+    let cs: u64 = args[4].parse().unwrap();
+    let outfile = &args[5];
+    match cell_generated(profile, thorough, cs, true) {
+        CellResult::Run(out) => {
+            let Some(v) = out.violation.clone() else {
+                println!("no violation for this cell");
+                return EXIT_OK;
+            };
+            let rf0 = ReplayFile {
+                property: profile::property_of(profile).to_string(),
+                profile: profile.clone(),
+                tier: args[3].clone(),
+                cell_seed: cs,
+                cfg: out.cfg.clone().unwrap(),
+                trace: out.trace.clone().unwrap_or_default(),
+                expect: v,
+                note: String::new(),
+            };
+            let (rf, note) = minimise::confirm_and_minimise(rf0, thorough);
+            match rf {
+                Some(rf) => {
+                    std::fs::write(outfile, serde_json::to_string_pretty(&rf).unwrap()).unwrap();
+                    println!("{}: {} ({})", rf.expect.oracle, rf.expect.msg, note);
+                    EXIT_VIOLATION
+                }
+                None => {
+                    println!("did not reproduce: {}", note);
+                    EXIT_HARNESS
+                }
+            }
+        }
+        CellResult::Died(m) => {
+            println!("died: {}", m);
+            EXIT_HARNESS
+        }
     }
 }
